@@ -34,7 +34,7 @@ ASSUMPTIONS = [
     "HEAD: range handling is only defined for GET (RFC 9110 14.2), so HEAD may answer 200 with the full length or mirror GET",
 ]
 MIN = {"quick": {"evaluations": 44000, "nontrivial": 44000, "outcomes": 5},
-       "thorough": {"evaluations": 100000, "nontrivial": 100000, "outcomes": 5}}
+       "thorough": {"evaluations": 108000, "nontrivial": 108000, "outcomes": 5}}
 
 SMALL_SIZES = [0, 1, 2, 5, 10]
 UNITS = [b"bytes=", b"Bytes=", b"items=", b"bytes", b"bytes =", b" bytes=", b"bytes= "]
@@ -479,6 +479,15 @@ def _check_multi_206(hdrs, body, data, want):
     return sorted(set(bad))
 
 
+def _stable(raw):
+    """Response bytes for the report with the clock-dependent parts blanked (replays must compare equal)."""
+    raw = re.sub(rb"(?im)^(Date|Last-Modified): [^\r\n]*", rb"\1: -", raw[:4000])
+    m = re.search(rb'boundary="?([0-9a-f]+)', raw)
+    if m:
+        raw = raw.replace(m.group(1), b"BOUNDARY")
+    return raw
+
+
 def judge(data, method, header, bufsize, raw, done, logged, escaped):
     """-> (outcome label, [(sig, detail)])"""
     size = len(data)
@@ -487,7 +496,7 @@ def judge(data, method, header, bufsize, raw, done, logged, escaped):
 
     def v(kind, extra=None):
         sig = "File.range:%s:%s" % (kind, shape)
-        det = {"size": size, "method": method, "range": header, "bufferSize": bufsize, "response": raw[:400],
+        det = {"size": size, "method": method, "range": header, "bufferSize": bufsize, "response": _stable(raw)[:400],
                "response_len": len(raw), "logged_failures": logged[:3]}
         if extra:
             det["note"] = extra
@@ -651,8 +660,8 @@ def shards(tier, seed):
     for size in SMALL_SIZES:
         for method in ("GET", "HEAD"):
             for var in variants:
-                for part in range(3):
-                    out.append(["small", size, method, var, part, 3])
+                for part in range(6):
+                    out.append(["small", size, method, var, part, 6])
     for buf, sizes in ((256, [255, 256, 257, 300, 600]), (65536, [65535, 65536, 65537, 70000])):
         for size in sizes:
             for method in ("GET", "HEAD"):
